@@ -45,6 +45,12 @@ def cases(tier, seed):
             yield {"f": "limit_fanout", "c": cd, "k": 2}
             yield {"f": "acyclic_unroll", "c": cd}
     n_rand = 150 if tier == "quick" else 3000
+    # acyclic circuits in which an output is named like the copy name acyclic_unroll derives for another node (c0_x next to x)
+    for t in ("and", "or", "xor"):
+        for nm in ("c0_x", "c1_x", "aux_in_x", "acyc_x"):
+            cd = {"name": "pre", "nodes": [["a", "input", False], ["b", "input", False], ["x", t, False], [nm, "not", True], ["y", "buf", True]],
+                  "edges": [["a", "x"], ["b", "x"], ["x", nm], ["x", "y"]], "bbs": {}}
+            yield {"f": "acyclic_unroll", "c": cd}
     for i in range(n_rand):
         nasty = rng.random() < 0.3
         cd = gen.random_circuit(rng, n_in=rng.randint(2, 5), n_gates=rng.randint(2, 7), max_fanin=rng.choice([3, 5, 6]),
@@ -60,6 +66,10 @@ def cases(tier, seed):
                                  p_out=0.3, allow_input_output=rng.random() < 0.2)
         yield {"f": "acyclic_unroll", "c": cd2}
         yield {"f": "insert_registers", "c": cd2, "stages": rng.randint(1, 3)}
+        if rng.random() < 0.5:
+            cd3 = gen.adversarial_rename(cd2, rng)   # e.g. an output named c0_<n> next to a node <n>
+            yield {"f": "acyclic_unroll", "c": cd3}
+            yield {"f": "insert_registers", "c": cd3, "stages": rng.randint(1, 3)}
 
 
 def _transparent(c_reg):
@@ -124,6 +134,8 @@ def run_case(case):
         try:
             r = cg.tx.acyclic_unroll(c)
         except ValueError as e:
+            if ("already in circuit" in str(e) or "overlap" in str(e)) and any(gen.looks_derived(x) for x in g0):
+                return {"nontrivial": False, "failures": []}   # a stated rejection: a name of the circuit clashes with a derived name
             kind = "acyclic_unroll-raises-on-output-that-is-input" if io_overlap else "acyclic_unroll-raises"
             return {"nontrivial": True, "failures": [{"kind": kind, "msg": repr(e)}]}
         if r.inputs() != c.inputs() or r.outputs() != c.outputs():
